@@ -10,6 +10,7 @@ from fractions import Fraction
 
 import mpmath
 import scipp as sc
+import scipp.constants  # noqa: F401
 
 mp = mpmath.mp
 mp.dps = 50
